@@ -1436,4 +1436,17 @@ def _ev_wait(I, self, args, kw, fr, site):
     timeout = args[0] if args else kw.get("timeout", NONE)
     I.st.events.append(("event.wait", self, timeout))
     I.E.on_wait(I, self, timeout, fr, site)
+    if "long_waits" in I.E.ghost_types:
+        # ghost counter of waits that may last longer than one second before the caller looks at anything again
+        short = False
+        if isinstance(timeout, VFloat):
+            short = I.st.proves(z3.And(timeout.t >= 0, timeout.t <= 1))
+        elif isinstance(timeout, (VInt, VBool)):
+            short = I.st.proves(z3.And(zint(_int(timeout, I)) >= 0, zint(_int(timeout, I)) <= 1))
+        if not short:
+            cur = I.st.ghost.get("long_waits")
+            if cur is None:
+                cur = I.fresh_of_type("int", "ghost.long_waits")
+                I.st.ghost_init["long_waits"] = cur
+            I.st.ghost["long_waits"] = VInt(simp(zint(cur.t) + 1))
     return VBool(I.st.fresh_bool("event_wait"))
